@@ -156,6 +156,12 @@ class C09(Check):
         bad = []
         with np.errstate(all="ignore"):
             s = SMCSamples(x=x, log_likelihood=ll, log_prior=lp, log_q=lq, beta=b0, parameters=list(PARAMS2))
+            # the precision of the set (a non-default width) must survive resampling
+            s32 = SMCSamples(x=x, log_likelihood=ll, log_prior=lp, log_q=lq, beta=b0, parameters=list(PARAMS2), dtype=np.float32)
+            if b1 != b0 or size is not None:
+                o32 = s32.resample(b1, n_samples=size, rng=ScriptedRng(choices=[[0] * M]))
+                if o32.x.dtype != np.float32 or o32.log_likelihood.dtype != np.float32 or np.dtype(o32.dtype) != np.float32:
+                    bad.append(f"float32 population resampled to {o32.x.dtype}")
             if cfg.get("reassign"):
                 s.log_weights(b1)
                 s.log_evidence_ratio(b1)
